@@ -1027,6 +1027,10 @@ def units(tier, seed):
     core("merge", 1, 3, False, "sequential", "oc", cap=2, W=2, wit=HOP)
     core("merge", 1, 3, False, "sequential", "rdr", cap=2, links="one",
          dems=(0, 1, 2), wit=HOP)
+    # ... through the method chain without a target (each method must start
+    # from the original table: ordered covering after default-route removal
+    # would capture the removed net's key)
+    core("merge", 1, 3, False, "sequential", "chain", cap=2, W=2, wit=HOP)
     core("merge", 1, 1, False, "sequential", "chain", cap=7, W=2,
          target="sym", wit=("mapped", "core-delivery",
                             "minimisation-failed"))
